@@ -440,6 +440,14 @@ func renderInt(r *Rng, z *big.Int, style string) any {
 func extFromGo(v any) map[string]any {
 	numAnn := func(m map[string]any, s string) map[string]any {
 		m["fl"], m["rat"] = extFloat(s), extRat(s)
+		// a text such as "3e9210299" denotes an integer of millions of digits: far outside every ABI integer type
+		// (the code rejects it on range), and Lean's decimal parser is quadratic in the digit count - hand the model
+		// "no integer" instead of the digits; the verdict (an error) is the same
+		for _, k := range []string{"fl", "rat"} {
+			if sv, isStr := m[k].(string); isStr && len(sv) > 2000 {
+				m[k] = "fail"
+			}
+		}
 		return m
 	}
 	switch t := v.(type) {
